@@ -1,30 +1,49 @@
 /*
  * C03/revoke_pass: PASS_REVOKE of the real do_one_pass() + scan_revoke_records()
- * (recovery.c) filling the real revoke hash table (revoke.c), on an ARBITRARY
- * journal image, given the end of the log computed by the reference (scan.c
- * proves PASS_SCAN computes the same).  Afterwards, for an ARBITRARY block number
- * and an ARBITRARY transaction of the log, jbd2_journal_test_revoke() answers
- * exactly what the reference's revoke set says: "a revoke record for this block
- * exists in this or a later committed transaction".  Then the table is cleared
- * and destroyed (J_ASSERTs of revoke.c must hold).
+ * (recovery.c) on an ARBITRARY journal image, given the end of the log computed
+ * by the reference (scan.c proves PASS_SCAN computes the same).  The revoke table
+ * is cut at its interface: jbd2_journal_set_revoke() is a logging stub, and the
+ * claim is that the pass hands it exactly the (block, transaction) records of
+ * the revoke blocks of COMMITTED transactions, in log order, and nothing else.
+ * revoke_table.c proves that the real table turns such a sequence of calls into
+ * the predicate "revoked in this or a later transaction".
  */
 #include "jcfg.h"
 struct vf_in {
 	unsigned char j[NJ * B];
 	unsigned int s_start, s_sequence, s_first;
-	unsigned long long qblk;	/* the question asked of the table */
-	unsigned int qord;
 };
 VF_DECLARE_INPUT(struct vf_in, IN)
 #include "vf_input.inc"
+#define VF_NO_REVOKE
 #include "jgeom.h"
 #include "jenv.h"
+#define REF_LOG_REVOKES
 #include "jbd2_ref.h"
+
+#define MAXLOG (REF_MAXR + 1)
+static unsigned long long vf_log_blk[MAXLOG];
+static unsigned int vf_log_seq[MAXLOG];
+static int vf_nlog;
+
+/* STUB: jbd2_journal_set_revoke logs its arguments (the real table: revoke_table.c) */
+int jbd2_journal_set_revoke(journal_t *j, unsigned long long b, tid_t s)
+{
+	(void) j;
+	if (vf_nlog < MAXLOG) {
+		vf_log_blk[vf_nlog] = b;
+		vf_log_seq[vf_nlog] = s;
+	}
+	vf_nlog++;
+	return 0;
+}
+int jbd2_journal_test_revoke(journal_t *j, unsigned long long b, tid_t s) { (void) j; (void) b; (void) s; PROP(0, "PASS_REVOKE does not query the revoke table"); return 0; }
+void jbd2_journal_clear_revoke(journal_t *j) { (void) j; }
 
 int main(void)
 {
 	static struct recovery_info info;
-	int rc, q;
+	int rc, k;
 
 	VF_INPUT(IN);
 	VF_ASSUME_GEOMETRY();
@@ -37,14 +56,6 @@ int main(void)
 	/* BOUND: at most REF_MAXRB revoke blocks in committed transactions, each with at most REF_MAXREV records */
 	ASSUME(ref_bound_ok);
 
-	/* as recover_ext3_journal() / ext2fs_run_ext3_journal() set the table up (HASHSZ buckets instead of 1024) */
-	rc = jbd2_journal_init_revoke_record_cache();
-	PROP(rc == 0, "record cache");
-	rc = jbd2_journal_init_revoke_table_cache();
-	PROP(rc == 0, "table cache");
-	rc = jbd2_journal_init_revoke(&vf_journal, HASHSZ);
-	PROP(rc == 0, "init revoke");
-
 	info.start_transaction = IN.s_sequence;
 	info.end_transaction = IN.s_sequence + ref_ncommits;
 	rc = do_one_pass(&vf_journal, &info, PASS_REVOKE);
@@ -54,18 +65,14 @@ int main(void)
 	} else {
 		PROP(rc == 0, "revoke pass succeeds");
 		PROP(info.nr_revokes == (int) ref_nrevoke_records, "every revoke record of a committed transaction is scanned, none else");
-		/* BOUND: the question is about a transaction within 16 ids of s_sequence */
-		ASSUME(IN.qord < 16);
-		q = jbd2_journal_test_revoke(&vf_journal, IN.qblk, IN.s_sequence + IN.qord);
-		PROP((q != 0) == (ref_revoked_by_table(IN.qblk, IN.qord) != 0),
-		     "a block is revoked for transaction T iff a revoke record for it exists in T or a later committed transaction");
+		PROP(vf_nlog == (int) ref_nrevoke_records, "one set_revoke per record");
+		for (k = 0; k < REF_MAXR; k++)
+			if (k < vf_nlog)
+				PROP(vf_log_blk[k] == ref_log_blk[k] && vf_log_seq[k] == IN.s_sequence + ref_log_ord[k],
+				     "set_revoke receives the record's block number and the sequence of the transaction holding the revoke block");
 	}
 	PROP(vf_fs_writes == 0 && vf_fs_oob_writes == 0 && vf_j_writes == 0, "the revoke pass writes nothing");
 	PROP(vf_j_oob_reads == 0 && vf_jheld == 0, "reads stay inside the journal, buffers are released");
-
-	jbd2_journal_clear_revoke(&vf_journal);
-	PROP(jbd2_journal_test_revoke(&vf_journal, IN.qblk, IN.s_sequence + IN.qord) == 0, "cleared table revokes nothing");
-	jbd2_journal_destroy_revoke(&vf_journal);	/* J_ASSERT(list_empty) inside */
 	VF_END();
 	return 0;
 }
